@@ -530,12 +530,8 @@ pub struct FrameCase {
 fn num_toc_entries(img: &ImageHeader, fh: &FrameHeader) -> usize {
     let (w, h) = fh.frame_size(img);
     let up = fh.upsampling.max(1);
-    let (mut w, mut h) = ((w + up - 1) / up, (h + up - 1) / up);
-    if fh.frame_type == FT_LF {
-        let s = 3 * fh.lf_level;
-        w = (w + (1 << s) - 1) >> s;
-        h = (h + (1 << s) - 1) >> s;
-    }
+    // (frame_size already accounts for the 8x downsampling per level of an LF frame)
+    let (w, h) = ((w + up - 1) / up, (h + up - 1) / up);
     let gd = 128u32 << fh.group_size_shift;
     let ng = ((w + gd - 1) / gd) * ((h + gd - 1) / gd);
     let lgd = gd * 8;
@@ -974,12 +970,8 @@ fn section_names(img: &ImageHeader, fh: &FrameHeader, n: usize) -> Vec<String> {
     }
     let (w, h) = fh.frame_size(img);
     let up = fh.upsampling.max(1);
-    let (mut w, mut h) = ((w + up - 1) / up, (h + up - 1) / up);
-    if fh.frame_type == FT_LF {
-        let s = 3 * fh.lf_level;
-        w = (w + (1 << s) - 1) >> s;
-        h = (h + (1 << s) - 1) >> s;
-    }
+    // (frame_size already accounts for the 8x downsampling per level of an LF frame)
+    let (w, h) = ((w + up - 1) / up, (h + up - 1) / up);
     let gd = 128u32 << fh.group_size_shift;
     let ng = ((w + gd - 1) / gd) * ((h + gd - 1) / gd);
     let lgd = gd * 8;
